@@ -20,6 +20,7 @@ import json
 
 CLASSES = [
     ("automata/base/automaton.py", "Automaton"),
+    ("automata/fa/fa.py", "FA"),
     ("automata/fa/dfa.py", "DFA"),
     ("automata/fa/nfa.py", "NFA"),
     ("automata/fa/gnfa.py", "GNFA"),
@@ -98,6 +99,44 @@ def not_in_tuple_literals(fn):
     return []
 
 
+def _const_in_self_attr(test):
+    """`<const> in self.<attr>` → "<const> in self.<attr>", else None."""
+    if isinstance(test, ast.Compare) and len(test.ops) == 1 and isinstance(test.ops[0], ast.In) \
+            and isinstance(test.left, ast.Constant):
+        comp = test.comparators[0]
+        if isinstance(comp, ast.Attribute) and isinstance(comp.value, ast.Name) and comp.value.id == "self":
+            return f"{test.left.value!r} in self.{comp.attr}"
+    return None
+
+
+def stmt_shape(st) -> str:
+    """One top-level statement of a validate method, as a short descriptor:
+    `if <const> in self.<attr> [or <const> in self.<attr> …]: raise <Exc>`, `self.<method>()`,
+    `for`, or the node type."""
+    if isinstance(st, ast.If) and len(st.body) == 1 and isinstance(st.body[0], ast.Raise) and not st.orelse:
+        tests = st.test.values if isinstance(st.test, ast.BoolOp) and isinstance(st.test.op, ast.Or) else [st.test]
+        parts = [_const_in_self_attr(t) for t in tests]
+        if all(p is not None for p in parts):
+            return f"if {' or '.join(parts)}: raise {exc_name(st.body[0].exc)}"
+    if isinstance(st, ast.Expr) and isinstance(st.value, ast.Call) and isinstance(st.value.func, ast.Attribute):
+        v = st.value.func.value
+        if isinstance(v, ast.Name) and v.id == "self":
+            return f"self.{st.value.func.attr}()"
+        if isinstance(v, ast.Call) and isinstance(v.func, ast.Name) and v.func.id == "super":
+            return f"super().{st.value.func.attr}()"
+    if isinstance(st, ast.For):
+        return "for"
+    return type(st).__name__
+
+
+def body_shape(fn):
+    body = list(fn.body)
+    if body and isinstance(body[0], ast.Expr) and isinstance(body[0].value, ast.Constant) \
+            and isinstance(body[0].value.value, str):
+        body = body[1:]  # docstring
+    return [stmt_shape(st) for st in body]
+
+
 def super_init_kwargs(cnode):
     """keyword names passed to super().__init__(…) / super(X, self).__init__(…) in __init__."""
     for fn in methods(cnode):
@@ -156,6 +195,23 @@ def gen_validate_lits(parse) -> str:
     out.append(",\n".join(rows))
     out.append("]")
     out.append("")
+    out.append("/-- (class, exception classes its validation methods can raise — sorted, without repeats).")
+    out.append("Deliberately coarser than `raiseSites`: splitting, merging or moving a check inside a class")
+    out.append("does not change it; dropping the last raise of a kind, or adding a new kind, does. -/")
+    out.append("def raiseKinds : List (String × List String) := [")
+    rows = []
+    for rel, cls in CLASSES:
+        kinds = set()
+        for fn in methods(nodes[cls]):
+            if fn.name.startswith("_validate") or fn.name in ("_read_input_symbol_subset", "validate"):
+                if cls == "Automaton" and fn.name == "validate":
+                    continue          # the abstract method (raises NotImplementedError)
+                kinds.update(raises_of(fn))
+        if kinds:
+            rows.append(f"  ({lean_str(cls)}, {lean_list(sorted(kinds))})")
+    out.append(",\n".join(rows))
+    out.append("]")
+    out.append("")
     out.append("/-- (class, methods called on `self` / `super()` by `validate`, in source order). -/")
     out.append("def validateCalls : List (String × List String) := [")
     rows = []
@@ -165,6 +221,23 @@ def gen_validate_lits(parse) -> str:
                            "_validate_transition_invalid_symbols", "__post_init__"):
                 name = cls if fn.name == "validate" else f"{cls}.{fn.name}"
                 rows.append(f"  ({lean_str(name)}, {lean_list(self_calls_of(fn))})")
+    out.append(",\n".join(rows))
+    out.append("]")
+    out.append("")
+    out.append("/-- top-level statements, in source order, of the methods that check the reserved names")
+    out.append("(`None` as a state name, the empty string as an input / stack symbol) and of the")
+    out.append("`validate` methods that call them. -/")
+    out.append("def reservedNameChecks : List (String × List String) := [")
+    rows = []
+    for cls, meth in (("FA", "_validate_reserved_names"), ("DFA", "validate"), ("NFA", "validate"),
+                      ("PDA", "validate")):
+        shape = None
+        if nodes.get(cls) is not None:
+            for fn in methods(nodes[cls]):
+                if fn.name == meth:
+                    shape = body_shape(fn)
+        if shape is not None:
+            rows.append(f"  ({lean_str(cls + '.' + meth)}, {lean_list(shape)})")
     out.append(",\n".join(rows))
     out.append("]")
     out.append("")
@@ -234,8 +307,151 @@ def gen_validate_lits(parse) -> str:
     return "\n".join(out)
 
 
+# ------------------------------------------------------------------ documented exceptions
+# Per-method table of the exception classes the *documentation* names: the numpy-style
+# "Raises" section of the method docstring; for a wrapper without such a section
+# (`__len__` → `cardinality`, `read_input` → `read_input_stepwise`, `__or__` → `union`, …) the
+# union over the methods it calls on `self` / `cls` / `super()`, minus what it catches.
+DOC_FILES = [
+    "automata/base/automaton.py", "automata/fa/fa.py", "automata/fa/dfa.py", "automata/fa/nfa.py",
+    "automata/fa/gnfa.py", "automata/pda/pda.py", "automata/pda/dpda.py", "automata/pda/npda.py",
+    "automata/tm/tm.py", "automata/tm/dtm.py", "automata/tm/ntm.py", "automata/tm/mntm.py",
+]
+
+
+def raises_section(doc):
+    """Exception names of the "Raises" section of a numpy-style docstring, or None when the
+    docstring has no such section."""
+    if not doc:
+        return None
+    lines = doc.splitlines()
+    for i, line in enumerate(lines):
+        if line.strip() == "Raises" and i + 1 < len(lines) and lines[i + 1].strip() \
+                and set(lines[i + 1].strip()) == {"-"}:
+            ind = len(line) - len(line.lstrip())
+            out = []
+            j = i + 2
+            while j < len(lines):
+                cur = lines[j]
+                if cur.strip():
+                    cind = len(cur) - len(cur.lstrip())
+                    if cind < ind:
+                        break
+                    if cind == ind:
+                        if j + 1 < len(lines) and lines[j + 1].strip() and set(lines[j + 1].strip()) == {"-"}:
+                            break  # next section header
+                        out.append(cur.strip().split(".")[-1])
+                j += 1
+            return out
+    return None
+
+
+def _calls_with_caught(fn):
+    """[(kind, method, caught exception names)] for calls `self.m()` / `cls.m()` (kind "self")
+    and `super().m()` (kind "super") in source order; `caught` = exception classes of the
+    enclosing `try … except` handlers (plus RejectionException for ignore_rejection=True)."""
+    out = []
+
+    def visit(node, caught):
+        if isinstance(node, ast.Try):
+            names = set()
+            for h in node.handlers:
+                ts = h.type.elts if isinstance(h.type, ast.Tuple) else ([h.type] if h.type is not None else [])
+                for t in ts:
+                    names.add(exc_name(t))
+                if h.type is None:
+                    names.add("BaseException")
+            for ch in node.body:
+                visit(ch, caught | names)
+            for ch in node.handlers + node.orelse + node.finalbody:
+                visit(ch, caught)
+            return
+        if isinstance(node, ast.Call) and isinstance(node.func, ast.Attribute):
+            v = node.func.value
+            extra = set()
+            for k in node.keywords:
+                if k.arg == "ignore_rejection" and isinstance(k.value, ast.Constant) and k.value.value is True:
+                    extra.add("RejectionException")
+            if isinstance(v, ast.Name) and v.id in ("self", "cls"):
+                out.append(("self", node.func.attr, sorted(caught | extra)))
+            elif isinstance(v, ast.Call) and isinstance(v.func, ast.Name) and v.func.id == "super":
+                out.append(("super", node.func.attr, sorted(caught | extra)))
+        for ch in ast.iter_child_nodes(node):
+            visit(ch, caught)
+
+    for st in fn.body:
+        visit(st, frozenset())
+    return out
+
+
+def documented_raises(parse) -> dict:
+    """{"bases": {cls: [base names]}, "methods": {"Cls.meth": {"raises": [names] | None,
+    "has_doc": bool, "calls": [[kind, meth, [caught]]]}}} for every class of DOC_FILES."""
+    bases, meths = {}, {}
+    for rel in DOC_FILES:
+        try:
+            tree = parse(rel)
+        except FileNotFoundError:
+            continue
+        for c in tree.body:
+            if not isinstance(c, ast.ClassDef):
+                continue
+            bases[c.name] = [exc_name(b) for b in c.bases]
+            for fn in c.body:
+                if isinstance(fn, (ast.FunctionDef, ast.AsyncFunctionDef)):
+                    doc = ast.get_docstring(fn)
+                    meths[f"{c.name}.{fn.name}"] = dict(raises=raises_section(doc), has_doc=doc is not None,
+                                                       calls=[list(x) for x in _calls_with_caught(fn)])
+    return dict(bases=bases, methods=meths)
+
+
+def _mro(table, cls):
+    out = []
+
+    def go(c):
+        if c in out or c not in table["bases"]:
+            return
+        out.append(c)
+        for b in table["bases"][c]:
+            go(b)
+    go(cls)
+    return out
+
+
+def doc_closure(table, cls: str, meth: str, _seen=None, _after=None):
+    """Documented exception classes of `cls.meth` (sorted list of names)."""
+    _seen = _seen if _seen is not None else set()
+    mro = _mro(table, cls)
+    if _after is not None and _after in mro:
+        mro_from = mro[mro.index(_after) + 1:]
+    else:
+        mro_from = mro
+    owner = next((c for c in mro_from if f"{c}.{meth}" in table["methods"]), None)
+    if owner is None or (owner, meth, cls) in _seen:
+        return []
+    _seen = _seen | {(owner, meth, cls)}
+    m = table["methods"][f"{owner}.{meth}"]
+    if m["raises"] is not None:
+        return sorted(set(m["raises"]))
+    if not m["has_doc"]:
+        # an undocumented override (GNFA.read_input_stepwise: "dummy implementation"): what the
+        # overridden method documents
+        for c in mro_from[mro_from.index(owner) + 1:]:
+            mm = table["methods"].get(f"{c}.{meth}")
+            if mm is not None and mm["raises"] is not None:
+                return sorted(set(mm["raises"]))
+    out = set()
+    for kind, name, caught in m["calls"]:
+        sub = doc_closure(table, cls, name, _seen, owner if kind == "super" else None)
+        out |= {x for x in sub if x not in caught}
+    return sorted(out)
+
+
 def write_all(write_if_changed, parse):
     changed = []
     if write_if_changed("ValidateLits.lean", gen_validate_lits(parse)):
         changed.append("ValidateLits.lean")
+    import extract_object  # sibling module (C18): Generated/ObjectProtocol.lean
+    if write_if_changed("ObjectProtocol.lean", extract_object.gen_object_protocol(parse)):
+        changed.append("ObjectProtocol.lean")
     return changed
